@@ -15,7 +15,7 @@ mcGTols == %(gtols)s
 mcTooLarges == %(toolarges)s
 ====
 """
-CFGX = """SPECIFICATION Spec
+CFGX = """SPECIFICATION %(spec)s
 CONSTANTS N = %(n)d
  Fixes = %(fixes)s
  TRs <- mcTRs
@@ -36,7 +36,7 @@ mcCRs == %(crs)s
 mcGTols == %(gtols)s
 ====
 """
-CFGG = """SPECIFICATION Spec
+CFGG = """SPECIFICATION %(spec)s
 CONSTANTS N = %(n)d
  Fixes = %(fixes)s
  RMax = 3
@@ -80,15 +80,16 @@ def gparams(thorough):
               rankfams='{1, 3}', budgets='{TRUE, FALSE}')
 
 
-def _run(module, mc, cfg, params, fixes, invs, label, liveness=False, timeout=3000):
+def _run(module, mc, cfg, params, fixes, invs, label, liveness=False, timeout=3000, simulate=None, seed=None):
   p = dict(params)
   p['fixes'] = fixes
+  p['spec'] = 'SpecStaged' if simulate else 'Spec'
   props = ''.join('INVARIANT %s\n' % i for i in invs)
   if liveness:
     props += 'PROPERTY Terminates\n'
   p['props'] = props
   r = tlc.run_tlc('MC_' + module, cfg % p, tlc.run_dir(label), workers=16, timeout=timeout,
-                  extra_texts={'MC_%s.tla' % module: mc % p})
+                  extra_texts={'MC_%s.tla' % module: mc % p}, simulate=simulate, depth=(15 if simulate else None), seed=seed)
   tlc.require_clean(r, label)
   return r
 
@@ -108,6 +109,16 @@ def run_design_level(res, owner):
     if r.violated:
       raise tlc.MachineryError('MMImplG (current code) violates %s; see run/%s_implg' % (r.violated, owner))
     res.add_tlc(r, 'MMImplG')
+  if thorough:
+    # four geos: the instance space (8^4 eligibility assignments x families) is sampled by TLC's simulation mode
+    for inv, module, mc, cfg, params, fixes in ((xi, 'MMImplX', MCX, CFGX, dict(xparams(True), n=4), ALL_X_FIXES),
+                                                (gi, 'MMImplG', MCG, CFGG, dict(gparams(True), n=4), ALL_G_FIXES)):
+      if inv:
+        r = _run(module, mc, cfg, params, fixes, inv, owner + '_sim4_' + module.lower(), simulate='num=2500',
+                 seed=res.seed % 100000)
+        if r.violated:
+          raise tlc.MachineryError('%s with four geos (simulation) violates %s' % (module, r.violated))
+        res.add_tlc(r, module + '.simulate_N4')
   for table, module, mc, cfg, params in ((X_ASIS, 'MMImplX', MCX, CFGX, xparams(False)), (G_ASIS, 'MMImplG', MCG, CFGG, gparams(False))):
     if owner in table:
       fixes, inv = table[owner]
